@@ -1199,8 +1199,15 @@ emittype(struct type *t)
 		if (t->kind == TYPESTRUCT) {
 			fputs(", ", stdout);
 			/* skip subsequent members contained within the same storage unit */
-			do m = m->next;
-			while (m && m->offset < off);
+			for (;;) {
+				do m = m->next;
+				while (m && m->offset + m->type->size <= off);
+				if (!m || m->offset >= off)
+					break;
+				/* the member extends past the storage unit; describe the rest as bytes */
+				printf("b %llu, ", m->offset + m->type->size - off);
+				off = m->offset + m->type->size;
+			}
 		} else {
 			fputs(" } ", stdout);
 			m = m->next;
